@@ -257,8 +257,33 @@ def unrolled(ex, s, st, items):
     return res
 
 
+UNROLL_UNKNOWN = 3      # a loop the contracts do not know is executed completely for sequences of up to this many items
+
+
 def for_seq(ex, s, st, it, item_of=None, index_values=None):
     """for x in <tuple of symbolic length>: index loop cut by the invariant"""
+    key = loop_key(ex, s)
+    if ex.spec.invariants.get(key) is None and index_values is None and not getattr(ex, 'discovery', 0):
+        # no invariant for this loop (code the contracts were not written for).  Sequences of 0..UNROLL_UNKNOWN items: the loop is unrolled
+        # completely -- on those paths nothing is forgotten, a counter-model is a genuine one (bounded refutation; it proves nothing by
+        # itself).  Longer sequences: cut with the trivial invariant (paths marked .noinv: a counter-model there is 'undecided').
+        arr, n = seq_of(it, st)
+        elem = it.elem if isinstance(it, PSeq) else 'val'
+        def item(k):
+            if item_of: return item_of(IntVal(k))
+            return ZV('ref', Val.ref(asel(arr, IntVal(k))), elem[4:]) if elem.startswith('ref:') else ZV('val', asel(arr, IntVal(k)))
+        outs = []
+        for m in range(UNROLL_UNKNOWN + 1):
+            sm = st.copy(); sm.assume(n == m); sm.label(f'loop[{key}].unrolled{m}')
+            if ex.feasible(sm): outs.extend(unrolled(ex, s, sm, [item(k) for k in range(m)]))
+        rest = st.copy(); rest.assume(n > UNROLL_UNKNOWN)
+        if ex.feasible(rest): outs.extend(_for_seq_cut(ex, s, rest, it, item_of, index_values))
+        ex.spec.note_assumption(f'loop `{key}` has no invariant in the contract: unrolled for up to {UNROLL_UNKNOWN} items (bounded), cut trivially beyond')
+        return outs
+    return _for_seq_cut(ex, s, st, it, item_of, index_values)
+
+
+def _for_seq_cut(ex, s, st, it, item_of=None, index_values=None):
     key = loop_key(ex, s); inv = _inv(ex, key)
     arr, n = seq_of(it, st)
     elem = it.elem if isinstance(it, PSeq) else 'val'
